@@ -21,7 +21,7 @@
  * fresh bitmap:  v (< 65536) Add v;  2^32|a<<16|b AddRange(a,b);
  * 2^33|v Remove v;  2^34|a<<16|b RemoveRange(a,b);
  * step<<36|2^35|a<<16|b  Add a, a+step, a+2 step, ... (< b);
- * leading words 2^37|start<<16|len: the bitmap starts as the Decode of a RUNS
+ * leading words 2^60|start<<16|len: the bitmap starts as the Decode of a RUNS
  * container with these runs (the only way to a RUNS container below 4096). */
 #include "core.h"
 #include "varintAdaptive.h"
@@ -164,6 +164,19 @@ static void h_dict_size(const vcase *c) {
     call_end(&a);
     report(&a, s == 0 ? 0 : (s == ref ? 1 : 2), -1);
     free(buf); free(vals);
+}
+
+/* oom_dict_ratio Lvals : varintDictCompressionRatio (0.0f = failure) */
+static void h_dict_ratio(const vcase *c) {
+    acct a; acct_init(&a, c);
+    size_t n;
+    uint64_t *vals = arg_list(c, 0, &n);
+    float ref = varintDictCompressionRatio(vals, n);
+    call_begin(&a);
+    float r = varintDictCompressionRatio(vals, n);
+    call_end(&a);
+    report(&a, r == 0.0f ? 0 : (memcmp(&r, &ref, sizeof r) == 0 ? 1 : 2), -1);
+    free(vals);
 }
 
 /* oom_dict_stats Lvals */
@@ -318,6 +331,27 @@ static void h_float_encode(const vcase *c) {
         }
     }
     report(&a, ret, -1);
+    free(ref); free(buf); free(vals); free(bits);
+}
+
+/* oom_float_encode_auto Lbits errbits mode : varintFloatEncodeAuto, max_relative_error given as bit pattern */
+static void h_float_encode_auto(const vcase *c) {
+    acct a; acct_init(&a, c);
+    size_t n;
+    uint64_t *bits = arg_list(c, 0, &n);
+    uint64_t eb = arg_u64(c, 1);
+    double err;
+    memcpy(&err, &eb, sizeof err);
+    varintFloatEncodingMode mode = (varintFloatEncodingMode)arg_u64(c, 2);
+    double *vals = doubles_of(bits, n);
+    size_t cap = varintFloatMaxEncodedSize(n, VARINT_FLOAT_PRECISION_FULL) + 64;
+    uint8_t *ref = calloc(cap, 1), *buf = calloc(cap, 1);
+    varintFloatPrecision pr = VARINT_FLOAT_PRECISION_FULL, p = VARINT_FLOAT_PRECISION_FULL;
+    size_t wr = varintFloatEncodeAuto(ref, vals, n, err, mode, &pr);
+    call_begin(&a);
+    size_t w = varintFloatEncodeAuto(buf, vals, n, err, mode, &p);
+    call_end(&a);
+    report(&a, w == 0 ? 0 : ((w == wr && p == pr && memcmp(buf, ref, w) == 0) ? 1 : 2), -1);
     free(ref); free(buf); free(vals); free(bits);
 }
 
@@ -523,7 +557,7 @@ static void bm_apply(varintBitmap *vb, uint8_t *ref, const uint64_t *ops, size_t
         uint64_t o = ops[i];
         uint32_t lo = (uint32_t)((o >> 16) & 0xFFFF), hi = (uint32_t)(o & 0xFFFF);
         if (o >> 35 & 1) {
-            uint32_t step = (uint32_t)(o >> 36);
+            uint32_t step = (uint32_t)((o >> 36) & 0xFFFF);
             if (step == 0) step = 1;
             for (uint32_t v = lo; v < hi; v += step) { varintBitmapAdd(vb, (uint16_t)v); ref[v] = 1; }
         } else if (o >> 34 & 1) {
@@ -547,7 +581,7 @@ static varintBitmap *bm_build(const vcase *c, int arg, uint8_t *ref) {
     uint64_t *ops = arg_list(c, arg, &n);
     memset(ref, 0, BM_U);
     size_t nr = 0;
-    while (nr < n && (ops[nr] >> 37 & 1)) nr++;
+    while (nr < n && (ops[nr] >> 60 & 1)) nr++;
     varintBitmap *vb = NULL;
     if (nr) {
         uint8_t *buf = calloc(9 + 4 * nr, 1);
@@ -916,11 +950,13 @@ static const vreg tab[] = {
     {"oom_dict_encode", h_dict_encode},
     {"oom_dict_size", h_dict_size},
     {"oom_dict_stats", h_dict_stats},
+    {"oom_dict_ratio", h_dict_ratio},
     {"oom_dict_decode", h_dict_decode},
     {"oom_dict_decode_into", h_dict_decode_into},
     {"oom_pfor_threshold", h_pfor_threshold},
     {"oom_pfor_encode", h_pfor_encode},
     {"oom_float_encode", h_float_encode},
+    {"oom_float_encode_auto", h_float_encode_auto},
     {"oom_float_decode", h_float_decode},
     {"oom_adp_unique", h_adp_unique},
     {"oom_adp_analyze", h_adp_analyze},
